@@ -3,7 +3,7 @@ C14 — "List-mode histogramming and list-mode likelihood agree with the event l
 Property theorems over the model of `Model.lean` (`processData` = `LmToProjData::process_data`).  All statements are
 for every record list, every frame list, every template and every batch size (no bound).
 -/
-import StirVerif.C14.ProofsGrad
+import StirVerif.C14.ProofsLmObj
 
 namespace StirVerif.C14
 
@@ -206,6 +206,67 @@ theorem C14_lm_grad_eq_pd_grad {K : Type} [Field K] (c : Cfg) (hp : c.storePromp
       = ∑ b ∈ (promptBins c recs s e).toFinset, ((value (direct c recs s e) b : Int) : K) * (row b j / ybar b) := by
   rw [direct_prompts_only c hp hdl]
   exact sum_events_eq_sum_bins _ _
+
+/-! ### the same clause on the model of the real list-mode objective function
+`PoissonLogLikelihoodWithLinearModelForMeanAndListModeDataWithProjMatrixByBin` (`lmEvents` = `read_listmode_batch` batch after
+batch, `lmGps` = `actual_compute_subset_gradient_without_penalty(…, add_sensitivity = true)`; the driver executes exactly these
+functions on the inputs of the real class) -/
+
+/-- the configurations of the list-mode objective the clause is about: time-frame mode (a frame `[start,end)` with
+    `start < end`, `0 < end`), no `num_events_to_use`, a cache of at least one event -/
+structure LmCfg.WF (c : LmCfg) : Prop where
+  mode : c.doTimeFrame = true
+  noCount : c.numEventsToUse ≤ 0
+  cache : 1 ≤ c.cacheSize
+  frame : c.startT < c.endT
+  pos : 0 < c.endT
+
+/-- **the events the list-mode objective uses are the events `LmToProjData` histograms** (prompts only, same frame, same
+    ranges): for every cache size, the batches of `read_listmode_batch` concatenate to the accepted prompt events whose
+    preceding time mark lies in the frame, in stream order — for every stream whose time marks never go back. -/
+theorem C14_lm_objective_events (c : LmCfg) (h : c.WF) (recs : List Record) (hR : regularB [] 0 recs = true) :
+    (lmEvents c recs).flatten = promptBins c.histCfg recs c.startT c.endT := by
+  unfold lmEvents
+  rw [lmBatches_flatten c h.noCount h.cache (by have := h.frame; omega) _ true 0 recs 0 (by omega) (fun _ => rfl) (by simp),
+    lmReadAll_eq_filter c h.mode recs 0 ((regularB_iff _ _ _).1 hR) h.pos]
+  rfl
+
+/-- **the result does not depend on the cache size** (how the events are split into batches / cache files) — for every
+    stream, also malformed ones, in every mode without `num_events_to_use` -/
+theorem C14_lm_objective_cache_size_independent {K : Type} [Field K] (c : LmCfg) (n m : Nat) (hn : 1 ≤ n) (hm : 1 ≤ m)
+    (hcount : c.numEventsToUse ≤ 0) (hse : c.startT ≤ c.endT) (recs : List Record)
+    (data : Bin → LmBinData K) (img : Nat → K) (nsub subset : Int) (v : Nat) :
+    lmGps data img nsub subset (lmEvents { c with cacheSize := n } recs) v
+      = lmGps data img nsub subset (lmEvents { c with cacheSize := m } recs) v := by
+  rw [lmGps_eq_sum, lmGps_eq_sum]
+  unfold lmEvents
+  rw [lmBatches_flatten { c with cacheSize := n } hcount hn hse _ true 0 recs 0 (by omega) (fun _ => rfl) (by simp),
+    lmBatches_flatten { c with cacheSize := m } hcount hm hse _ true 0 recs 0 (by omega) (fun _ => rfl) (by simp),
+    lmReadAll_cacheSize c n, lmReadAll_cacheSize c m]
+
+/-- **"The gradient of the list-mode Poisson log-likelihood equals the gradient of the projection-data log-likelihood of
+    the histogrammed data with the same model"**, on the model of the real class: what the list-mode objective adds up at
+    voxel `v` for subset `subset` (event selection by frame and ranges, batches of any size, subset test on the view of the
+    basic bin, `1/(row·image + additive)` back projected along the row) equals the projection-data expression
+    `Σ_b y_b · row_b(v) / (row_b·image + additive_b)` over the bins of the subset, where `y` is the histogram `direct` that
+    `LmToProjData` produces from the same stream for the same frame (`C14_process_eq_direct_partial`) — for any rows,
+    additive terms, image and subset numbers over any field.  (The sensitivity term is the same back projection of
+    `1/normalisation` in both classes and is compared on the implementation only.) -/
+theorem C14_lm_objective_grad_eq_pd_grad {K : Type} [Field K] (c : LmCfg) (h : c.WF) (recs : List Record)
+    (hR : regularB [] 0 recs = true) (data : Bin → LmBinData K) (img : Nat → K) (nsub subset : Int) (v : Nat) :
+    lmGps data img nsub subset (lmEvents c recs) v
+      = ∑ b ∈ (promptBins c.histCfg recs c.startT c.endT).toFinset,
+          ((value (direct c.histCfg recs c.startT c.endT) b : Int) : K) *
+            (if inSubset nsub subset (data b).basicView then
+              rowAt (data b).row v / (lmFwd img (data b).row + (data b).add) else 0) := by
+  rw [lmGps_eq_sum, C14_lm_objective_events c h recs hR, sum_filter_events_eq_sum_bins,
+    direct_prompts_only c.histCfg rfl rfl]
+
+/-- what the driver executes (`accumulate` into an array of `n` voxels) is `lmGps` at every voxel of the image -/
+theorem C14_lm_objective_accumulate {K : Type} [Field K] (n : Nat) (data : Bin → LmBinData K) (img : Nat → K) (nsub subset : Int)
+    (batches : List (List Bin)) (v : Nat) (hv : v < n) :
+    (accumulate n (lmContribs data img nsub subset batches)).getD v 0 = lmGps data img nsub subset batches v :=
+  accumulate_getD n _ v hv
 
 /-! ### the hypotheses are satisfiable (non-vacuity) and needed (negative witnesses) -/
 
